@@ -193,10 +193,11 @@ def C19():
 
 def C18():
     from contracts.exports import UNITS
+    from contracts.encoder import RtfEncodeEntry
     from contracts import replayers as R
     return Property(
         "C18",
-        units=[ContractUnit(u) for u in UNITS],
+        units=[ContractUnit(u) for u in UNITS] + [ContractUnit(RtfEncodeEntry())],
         level="proof",
         technique="effect-trace contracts on the real write_rtf/write_docx/write_html/write_pdf bodies with a raise point injected at the "
                   "encode and conversion calls (before, after output, malformed result); trace obligations per exit path",
@@ -206,19 +207,19 @@ def C18():
         assumptions=["faults are injected at the encoding and conversion calls (the property's 'encoding or conversion fails'), not inside "
                      "mkdir/write_text/shutil.move; write_html's second move (resources folder) after a successful first move is outside the clause",
                      "rtf_encode() itself performs no file-system write (frame scan: separate unit, not yet in this check)"],
-        replayers={"encode.py::RTFDocument.write_": R.replay_exports, "convert.py::": R.replay_converter},
+        replayers={"encode.py::RTFDocument.write_": R.replay_exports, "convert.py::": R.replay_converter, "encode.py::RTFDocument.rtf_encode": R.replay_exports},
         design_ref="4/C18, A21",
     )
 
 
 def C14():
     from contracts.frames import UNITS_SCAN
-    from contracts.encoder import EncodeCtx
+    from contracts.encoder import EncodeCtx, ENTRY_UNITS
     from contracts.attributes import UpdateCell, UpdateRow
     from contracts import replayers as R
     return Property(
         "C14",
-        units=UNITS_SCAN + [ContractUnit(EncodeCtx()), ContractUnit(UpdateCell()), ContractUnit(UpdateRow())],
+        units=UNITS_SCAN + [ContractUnit(EncodeCtx()), ContractUnit(UpdateCell()), ContractUnit(UpdateRow())] + [ContractUnit(u) for u in ENTRY_UNITS],
         level="proof",
         technique="frame (modifies) contract over the encode call graph: every store/mutator site of the real AST must be justified by a "
                   "mechanically checked rule; colour-context protocol proved on the real UnifiedRTFEncoder.encode with a fault injected at every call",
@@ -227,18 +228,18 @@ def C14():
         assumptions=["documents constructed from components they do not share with a document of another column count "
                      "(constructor stores: known finding)"],
         replayers={"table::": R.replay_purity, "encoding/unified_encoder.py::UnifiedRTFEncoder.encode": R.replay_purity,
-                   "attributes.py::BroadcastValue": R.replay_broadcast},
+                   "attributes.py::BroadcastValue": R.replay_broadcast, "encode.py::": R.replay_purity, "encoding/engine.py::": R.replay_purity},
         design_ref="4/C14, 1.6",
     )
 
 
 def C15():
     from contracts.frames import UNITS_SCAN
-    from contracts.encoder import EncodeCtx
+    from contracts.encoder import EncodeCtx, ENTRY_UNITS
     from contracts import replayers as R
     return Property(
         "C15",
-        units=[UNITS_SCAN[0], ContractUnit(EncodeCtx())],
+        units=[UNITS_SCAN[0], ContractUnit(EncodeCtx())] + [ContractUnit(u) for u in ENTRY_UNITS],
         level="proof",
         technique="sufficient condition: no state shared between threads is written during rtf_encode (frame contract over the call graph); the "
                   "colour context is context-local and set/cleared around every pipeline call",
@@ -246,7 +247,8 @@ def C15():
                       "contextvars are per thread", "library internals are thread-safe for independent inputs"],
         assumptions=["concurrently encoded documents share no mutable component objects",
                      "a lock-based design would be undecided for this technique, not violated (L6)"],
-        replayers={"table::": R.replay_threads, "encoding/unified_encoder.py::UnifiedRTFEncoder.encode": R.replay_threads},
+        replayers={"table::": R.replay_threads, "encoding/unified_encoder.py::UnifiedRTFEncoder.encode": R.replay_threads, "encode.py::": R.replay_threads,
+                   "encoding/engine.py::": R.replay_threads},
         design_ref="4/C15, 1.6",
     )
 
